@@ -800,6 +800,9 @@ def _st_default(draw, tspec, kind):
     base = strip(tspec)
     if kind == "typeddict":
         return ["nr"]
+    if base[0] in ("list", "dict") and kind in ("namedtuple", "attrs") and draw(st.integers(0, 2)) == 0:
+        # a PLAIN mutable default (``x: List[int] = []``): NamedTuple and attrs accept it, dataclasses refuse it
+        return ["v", [] if base[0] == "list" else {"$": "d", "v": []}]
     if base[0] in ("list", "dict", "set") and kind in ("dataclass", "attrs"):
         return ["f", base[0]]
     if kind in ("dataclass", "attrs") and draw(st.booleans()):
